@@ -419,6 +419,7 @@ class Generated:
         self.lost = []          # annotations whose anchor was lost (id, dependent property tags)
         self.shapes = {}        # rel -> {fn@k: dict(unannotated_loops, unannotated_closures)}
         self.clock_uses = []
+        self.entropy_uses = []      # syntactic side condition of C07: entropy / clock sources in non-planner code
         self.hash_order_uses = []   # syntactic side condition of C07: iteration over a HashMap / HashSet    # syntactic side condition of C07: uses of a clock reading outside the deadline test
 
     def fn_of(self, o):
@@ -540,6 +541,12 @@ def build_unit(unit):
             for mm in rx_use.finditer(code_all):
                 li = code_all.count("\n", 0, mm.start())
                 g.hash_order_uses.append(dict(file=rel, line=keep[li][0], text=" ".join(mm.group(0).split())))
+        # C07 side condition no. 3 (syntactic): a state space (anything that is not a planner) has no business drawing from a
+        # source of randomness or time other than the generator it is handed
+        if 'geometric/planners/' not in rel:
+            for mm in re.finditer(r'\brand::random\b|\bthread_rng\b|\brand::rng\s*\(|\bfrom_os_rng\b|\bfrom_entropy\b|\bOsRng\b|\bSystemTime\b|\bInstant::now\b|\bgetrandom\b', code_all):
+                li = code_all.count("\n", 0, mm.start())
+                g.entropy_uses.append(dict(file=rel, line=keep[li][0], text=lines2[li].strip()[:160]))
         stext = "".join(lines2)
         sorig = []
         for (lineno, _), ln in zip(keep, lines2):
